@@ -158,3 +158,10 @@ def errors_check(prop, tier, seed, replay=None):
              '= %(ncells)d trees evaluated by TLC from spec/Errors.tla (which also checks ErrorCode(FromWire(ToWire(e))) = ErrorCode(e) on the reference); each built from the real constructors, returned by a real handler '
              'and observed through Call, CallResult, Batch and a server Callback; plus all listed and 2000 seeded int32 codes, WithData receivers and unmarshalable results',
         trusted=['error construction from the tree description in harness/errfam', 'TLC evaluation of spec/Errors.tla'])
+
+def adapt_check(prop, tier, seed, replay=None):
+    return simple_table_check(prop, tier, seed, 'HandlerAdapt', 'adaptfam', 'TestAdapt', '', '',
+        rule='decision tables of spec/HandlerAdapt.tla evaluated by TLC (%(ncells)d cells in total): the signature grammar nin x in0 x variadic x nout x result kinds (function types synthesised with reflect.FuncOf/MakeFunc), '
+             'struct-like parameter variants (tagged, mixed, embedded, tagged-embedded, no eligible fields, pointer, self-strict) x SetStrict x AllowArray x 13 params shapes, non-struct kinds x params shapes, '
+             'Positional arities 1..6 x 12 params shapes (null / wrong element at every position), name-list lengths 0..7, Args lengths 0..4 and Obj shapes; called/not-called/InvalidParams from the table, received values compared with encoding/json',
+        trusted=['parameter concretisation and the independent array-to-field translation in harness/adaptfam', 'encoding/json as the value oracle', 'TLC evaluation of spec/HandlerAdapt.tla'])
